@@ -29,7 +29,7 @@ impl ChildOut {
             if self.timed_out { " (killed by the watchdog)" } else { "" },
             self.wall_s,
             self.peak_rss_kb / 1024,
-            self.stderr_tail.replace('\n', " | ")
+            self.stderr_tail.lines().rev().take(6).collect::<Vec<_>>().into_iter().rev().collect::<Vec<_>>().join(" | ")
         )
     }
 }
@@ -48,13 +48,37 @@ fn sig_name(s: i32) -> String {
 /// Run `cvh child <args...>` with an address-space limit (KiB) and a wall-clock watchdog.
 pub fn run_child(args: &[String], timeout: Duration, vmem_kb: u64) -> ChildOut {
     let exe = std::env::current_exe().expect("current exe");
-    let start = Instant::now();
     // `ulimit -v` in a wrapper shell so that no libc binding is needed
     let mut cmd = Command::new("/bin/sh");
     cmd.arg("-c").arg(format!("ulimit -v {}; exec \"$0\" child \"$@\"", vmem_kb)).arg(exe);
     for a in args {
         cmd.arg(a);
     }
+    run_command(cmd, timeout)
+}
+
+/// Run several `cvh child` jobs, at most `parallel` at a time; results in job order.
+pub fn run_children(jobs: &[Vec<String>], parallel: usize, timeout: Duration, vmem_kb: u64) -> Vec<ChildOut> {
+    let next = std::sync::atomic::AtomicUsize::new(0);
+    let out: std::sync::Mutex<Vec<Option<ChildOut>>> = std::sync::Mutex::new(vec![None; jobs.len()]);
+    std::thread::scope(|s| {
+        for _ in 0..parallel.max(1).min(jobs.len().max(1)) {
+            s.spawn(|| loop {
+                let i = next.fetch_add(1, std::sync::atomic::Ordering::Relaxed);
+                if i >= jobs.len() {
+                    break;
+                }
+                let r = run_child(&jobs[i], timeout, vmem_kb);
+                out.lock().unwrap()[i] = Some(r);
+            });
+        }
+    });
+    out.into_inner().unwrap().into_iter().map(|o| o.expect("child result")).collect()
+}
+
+/// Run an arbitrary command (sanitizer tool chains) under the same watchdog / RSS sampling.
+pub fn run_command(mut cmd: Command, timeout: Duration) -> ChildOut {
+    let start = Instant::now();
     cmd.stdout(Stdio::piped()).stderr(Stdio::piped()).stdin(Stdio::null());
     let mut child = match cmd.spawn() {
         Ok(c) => c,
@@ -74,7 +98,7 @@ pub fn run_child(args: &[String], timeout: Duration, vmem_kb: u64) -> ChildOut {
         let mut s = Vec::new();
         let _ = se.read_to_end(&mut s);
         let s = String::from_utf8_lossy(&s).to_string();
-        let tail: Vec<&str> = s.lines().rev().take(6).collect();
+        let tail: Vec<&str> = s.lines().rev().take(600).collect();
         tail.into_iter().rev().collect::<Vec<_>>().join("\n")
     });
     let mut peak = 0u64;
